@@ -47,7 +47,8 @@ META = {
                   "every generated table of the class with the standard constructor states, four French (table, gender) "
                   "exceptions stated explicitly and absent from the lexicon); for every d*/pn* table the word that is the "
                   "table's ending (le, mon, moi, me ...) expands soundly (decide +kernel); every non-null cell of every row "
-                  "is listed (completeness; refuted for intransitive verbs conjugated with être, partial otherwise; "
+                  "is listed or is a participle cell the realizer refuses (pat==[intr] with avoir) — completeness, as repaired "
+                  "by /repo commit 73767de; "
                   "declension: every form listed except the plural of an uncountable English noun). Tie: both real "
                   "maps are enumerated completely (thorough tier) and compared pair for pair with the model; every listed "
                   "expression is realized by the real library; every table cell is asked of the real realizer.",
